@@ -97,6 +97,31 @@ fn run_seq_long_names(part: &mut Part, alphabet: Vec<Op>, depth: usize, mons: Ve
     part.bounds = json!({"short_names": b0, "long_names": part.bounds.clone()});
 }
 
+/// Third SEQ pass, unusual but legal queue names; empty seed only. Set 1: queue a has the empty
+/// name, queue b a 9-byte name of 2-, 3- and 4-byte UTF-8 sequences (byte length != char count).
+/// Set 2: a = "x", b = "x\0/\n" (an extension of a's name containing NUL, '/' and newline), the
+/// never-created queue = "X" (a's name in upper case).
+fn odd_name_sets() -> Vec<Vec<String>> {
+    let mut n1 = default_names();
+    n1[0] = String::new();
+    n1[1] = "\u{e9}\u{20ac}\u{1F600}".to_string();
+    let mut n2 = default_names();
+    n2[0] = "x".to_string();
+    n2[1] = "x\0/\n".to_string();
+    n2[2] = "X".to_string();
+    vec![n1, n2]
+}
+
+fn run_seq_odd_names(part: &mut Part, alphabet: Vec<Op>, depth: usize, mons: Vec<Monitors>) {
+    let b0 = part.bounds.clone();
+    let mut all = vec![];
+    for names in odd_name_sets() {
+        all.extend(mons.iter().cloned().map(|m| Monitors { names: Some(names.clone()), ..m }));
+    }
+    run_seq(part, vec![prof("empty x alphabet, unusual queue names (empty, multi-byte UTF-8; x, x+NUL+'/'+newline, X)", vec![seed_empty()], alphabet, depth)], all);
+    part.bounds = json!({"other_names": b0, "odd_names": part.bounds.clone()});
+}
+
 /// The shallow "every seed" profile shared by all properties.
 fn all_seeds_prof(alphabet: Vec<Op>, tiny_depth: usize, q: bool) -> Profile {
     let seeds = if TINY { all_seeds() } else { thin(all_seeds(), 4, q) };
@@ -157,7 +182,9 @@ pub fn run(part: &mut Part) {
                 ..Default::default()
             };
             run_seq(part, profiles, vec![mon.clone()]);
-            run_seq_long_names(part, a_full(), if TINY { if q { 3 } else { 4 } } else { 1 }, vec![mon]);
+            run_seq_long_names(part, a_full(), if TINY { if q { 3 } else { 4 } } else { 1 }, vec![mon.clone()]);
+            run_seq_odd_names(part, a_full(), if TINY { 3 } else { 1 }, vec![mon.clone()]);
+            run_seq_odd_names(part, a_shapes(), if TINY { if q { 3 } else { 4 } } else { 2 }, vec![mon]);
             part.rule = "every op sequence of the stated depth over the alphabet, after every seed; after every op the return value is compared with the reference model and, once per distinct prefix, every read accessor for all range-bound shapes; distinct_nontrivial = distinct (model state, outcome) pairs at which the full accessor comparison ran".into();
             if TINY {
                 part.require_outcomes(&["ring_wrapped_reads", "err-past", "append-noop", "err-missing", "err-exists", "truncated-n"]);
@@ -217,8 +244,10 @@ pub fn run(part: &mut Part) {
             let lprofiles = vec![prof("empty x A_roll, queue a has a name longer than a block", vec![seed_empty()], a_roll(), if TINY { if q { 3 } else { 4 } } else if q { 2 } else { 3 })];
             let lmon = Monitors { property: "C01", names: Some(names), conformance: true, reopen_state: true, final_reopen: true, final_appends: true, ..Default::default() };
             let b0 = part.bounds.clone();
-            run_seq(part, lprofiles, vec![lmon]);
+            run_seq(part, lprofiles, vec![lmon.clone()]);
             part.bounds = json!({"short_names": b0, "long_names": part.bounds.clone()});
+            run_seq_odd_names(part, a_roll(), if TINY { if q { 3 } else { 4 } } else { 2 }, vec![lmon.clone()]);
+            run_seq_odd_names(part, a_shapes(), if TINY { if q { 3 } else { 4 } } else { 2 }, vec![lmon]);
             part.rule = "every op sequence of the stated depth over the alphabet (Reopen = clean drop + open is a letter, so restarts are inserted at every point), after every seed, for each hasher seed; the observable state (queue set, positions, payload bytes, next position) is compared with the reference model after every Reopen and after a final Reopen, followed by one auto append per queue; distinct_nontrivial = distinct (model state, number of WAL files, seed) at which a restart was checked".into();
             part.require_outcomes(&["restarts_checked", "reopened", "deleted", "truncated-n"]);
         }
@@ -247,7 +276,8 @@ pub fn run(part: &mut Part) {
                 })
                 .collect();
             part.extra.insert("hash_seed_orders".into(), json!(seeds_hash));
-            run_seq(part, profiles, mons);
+            run_seq(part, profiles, mons.clone());
+            run_seq_odd_names(part, a_shapes(), if TINY { if q { 3 } else { 4 } } else { 2 }, vec![mons[0].clone()]);
             // crash part: after recovery from any crash point no position handed out or truncated-to
             // by a completed call may be reachable again
             let mut cseeds = vec![seed_empty_old(), seed_gc_ready(), seed_two_files(), seed_future()];
@@ -314,7 +344,8 @@ pub fn run(part: &mut Part) {
                 Monitors { property: "C13", c13: true, policy: Some(PolicyCfg::DoNothing), ..Default::default() },
             ];
             run_seq(part, profiles, mons.clone());
-            run_seq_long_names(part, a_full(), if TINY { if q { 2 } else { 3 } } else { 1 }, mons);
+            run_seq_long_names(part, a_full(), if TINY { if q { 2 } else { 3 } } else { 1 }, mons.clone());
+            run_seq_odd_names(part, a_shapes(), if TINY { if q { 2 } else { 3 } } else { 1 }, mons);
             part.rule = "every op sequence of the stated depth over A_full (which contains every rejected / no-op call shape, on existing and missing queues); for every call the model rejects or acknowledges as a no-op: the I/O + frame trace of the call has no write/create/set_len/unlink/frame event, wal_bytes_written is 0, the observable state and (once per prefix) the flushed WAL file bytes are unchanged; at the end the history is re-run without those calls and both directories are reopened and compared; policies Always(Flush) and DoNothing".into();
             part.require_outcomes(&["rejected_or_noop_calls_checked", "err-past", "append-noop", "err-missing", "err-exists", "restart_comparisons_with_vs_without_rejected_calls"]);
         }
